@@ -362,7 +362,7 @@ def run(ctx):
             store = stores[(nrec + rep) % 2]
             base = scenario(store, lens, lim, [], op='list')
             nreq, _ = case(base, 'list')
-            idx = range(nreq) if (nrec <= 3 or not q) else rng.sample(range(nreq), min(nreq, 6))
+            idx = range(nreq) if (nrec <= 3 or (not q and nrec <= 12)) else rng.sample(range(nreq), min(nreq, 6 if q else 10))
             for i in idx:
                 case(dict(base, plan=[('none',)] * i + [('cancel',)]), 'list cancel@index')
                 if i % 3 == 0:
@@ -376,7 +376,7 @@ def run(ctx):
         e[store] = []
         case(e, 'empty store')
 
-    failing, errors = C.coq_cases('C11', 'Lib.Prog Model.SdrIO Corr.C11', terms, shard=120)
+    failing, errors = C.coq_cases('C11', 'Lib.Prog Model.SdrIO Corr.C11', terms, shard=120 if q else 60)
     res.mismatches = [{'case': meta[i], 'term': terms[i][:3000]} for i in failing[:50]]
     res.corr_errors = errors
     res.evaluations = len(terms)
